@@ -377,7 +377,7 @@ class Driver:
         from exabgp.bgp.message import Message, Notify
 
         try:
-            msg = Message.unpack(mtype, body, neg)
+            msg = Message.unpack(mtype, memoryview(body), neg)  # a memoryview, as Connection.reader hands the body over
             coll = None
             if mtype == 2:
                 coll = msg if getattr(msg, 'IS_EOR', False) else msg.data
